@@ -112,6 +112,46 @@ def check_algebra(ctx, R="C16.algebra"):
             ctx.note(f"Region.difference has no shortcut for {g} (falls to the generic DifferenceRegion; not a violation)")
 
 
+def check_units(ctx, R="C16.units"):
+    ctx.rule(
+        R,
+        "sizes are comparable only within one dimensionality: `size` is a length, an area or a volume depending on the region's "
+        "dimensionality, so every comparison of the sizes of two different regions is made under a test that their dimensionalities are equal "
+        "(a thin polygon has a smaller area than the length of a polyline it contains)",
+    )
+    model = ctx.model
+    m = model.module(RG)
+    n = 0
+    for q, fn in m.functions.items():
+        for c in walk_local(fn):
+            if not (isinstance(c, ast.Compare) and len(c.ops) == 1 and isinstance(c.ops[0], (ast.Lt, ast.LtE, ast.Gt, ast.GtE))):
+                continue
+            sides = [c.left, c.comparators[0]]
+            owners = []
+            for sd in sides:
+                ow = {unparse(a.value) for a in ast.walk(sd) if isinstance(a, ast.Attribute) and a.attr == "size"}
+                owners.append(ow)
+            if not (owners[0] and owners[1]) or owners[0] == owners[1]:
+                continue
+            n += 1
+            a_, b_ = sorted(owners[0])[0], sorted(owners[1])[0]
+            conds = [t for t, p in lib.path_conditions(c, fn) if p]
+            # conjuncts of an enclosing `and`
+            par = lib.parent(c)
+            while isinstance(par, ast.BoolOp) and isinstance(par.op, ast.And):
+                conds.extend(v for v in par.values if v is not c)
+                par = lib.parent(par)
+            flat = []
+            for t in conds:
+                flat.extend(t.values if isinstance(t, ast.BoolOp) and isinstance(t.op, ast.And) else [t])
+            same_dim = any(lib.ctext(t) in (lib.ctext_of(f"{a_}.dimensionality == {b_}.dimensionality"), lib.ctext_of(f"{b_}.dimensionality == {a_}.dimensionality")) for t in flat)
+            if same_dim:
+                ctx.ok(R, c, f"{q}: `{norm_text(c, 50)}` compares sizes of equal dimensionality")
+            else:
+                ctx.finding(R, c, f"{q}: sizes of different dimensionality compared", f"{q}: `{unparse(c)}` compares the size of {a_} with the size of {b_} without requiring `{a_}.dimensionality == {b_}.dimensionality`: an area is compared with a length, e.g. a polygon 0.8 wide is said not to contain its own centreline")
+    ctx.floor(R, n, 1, "comparisons of the sizes of two regions")
+
+
 def check_delegation_raise(ctx, R="C16.delegate"):
     ctx.rule(
         R,
@@ -151,3 +191,7 @@ def check(ctx):
     check_rebuild(ctx)
     n = rk.check_argmin(ctx, "C16.argmin")
     check_algebra(ctx)
+    check_units(ctx)
+    from .c03 import check_cache
+
+    check_cache(ctx, R="C16.cache")
